@@ -2411,21 +2411,24 @@ DLLIMPORT int cfg_opt_setnstr(cfg_opt_t *opt, const char *value, unsigned int in
 		return CFG_FAIL;
 	}
 
-	val = cfg_opt_getval(opt, index);
-	if (!val)
-		return CFG_FAIL;
-
-	if (val->string)
-		oldstr = val->string;
-
+	/* value may be a string the option owns (the result of a getter),
+	 * and cfg_opt_getval() releases the values of an option that is
+	 * still at its default: copy first */
+	newstr = NULL;
 	if (value) {
 		newstr = strdup(value);
 		if (!newstr)
 			return CFG_FAIL;
-		val->string = newstr;
-	} else {
-		val->string = NULL;
 	}
+
+	val = cfg_opt_getval(opt, index);
+	if (!val) {
+		free(newstr);
+		return CFG_FAIL;
+	}
+
+	oldstr = val->string;
+	val->string = newstr;
 
 	if (oldstr)
 		free(oldstr);
